@@ -87,14 +87,18 @@ func repoProfileText(p int) []byte {
 	return b
 }
 
+// the entities whose configuration references the shared profile at the start (the user action SetProfile changes that)
 func usesProfile(e string) bool { return e == "l" }
 
-func (l repoLayout) configText(e string, c int, parent string) []byte {
+// profile part of an effective configuration as Repo.tla writes it: 0 = no profile referenced, profBase + content otherwise
+const profBase = 10
+
+func (l repoLayout) configText(e string, c int, parent string, uses bool) []byte {
 	m := map[string]any{
 		"version": 1,
 		"subject": fmt.Sprintf("CN=%s v%d, O=Repo Model, C=DE", e, c),
 	}
-	if usesProfile(e) {
+	if uses {
 		m["profile"] = "shared"
 	}
 	if parent != "" {
@@ -168,6 +172,7 @@ type absState struct {
 	Cfgc     map[string]int    `json:"cfgc"`
 	Prof     int               `json:"prof"`
 	Profp    bool              `json:"profp"` // the shared profile file exists
+	Usesp    []string          `json:"usesp"` // the entities whose configuration references the shared profile
 	Par      map[string]string `json:"par"`
 	Present  []string          `json:"present"` // the entities that have a configuration file
 	CfgNewer map[string]bool   `json:"cfgNewer"`
@@ -207,6 +212,7 @@ type repoWorld struct {
 	cfgc map[string]int
 	par  map[string]string
 	gone map[string]bool // entities whose configuration file the user deleted
+	uses map[string]bool // entities whose configuration references the shared profile
 	prof int
 }
 
@@ -275,7 +281,7 @@ func dnContent(raw []byte) (int, bool) {
 }
 
 func (w *repoWorld) project(ht *hashTable) (*absState, map[string]*artFacts) {
-	s := &absState{Prof: w.prof, Profp: w.profPresent(), Cfgc: map[string]int{}, Par: map[string]string{}, CfgNewer: map[string]bool{}, Mt: []string{}, Present: []string{}, Art: map[string]absArt{}, Flags: []string{}}
+	s := &absState{Prof: w.prof, Profp: w.profPresent(), Cfgc: map[string]int{}, Par: map[string]string{}, CfgNewer: map[string]bool{}, Mt: []string{}, Present: []string{}, Usesp: []string{}, Art: map[string]absArt{}, Flags: []string{}}
 	facts := map[string]*artFacts{}
 	certs := map[string]*project.Cert{}
 	pems := map[string]project.PemFile{}
@@ -284,6 +290,9 @@ func (w *repoWorld) project(ht *hashTable) (*absState, map[string]*artFacts) {
 		s.Par[e] = w.par[e]
 		if !w.gone[e] {
 			s.Present = append(s.Present, e)
+		}
+		if w.uses[e] {
+			s.Usesp = append(s.Usesp, e)
 		}
 		f, ok := w.fs.Files[w.l.artPath(e)]
 		a := absArt{Hash: noHash, Key: "none"}
@@ -319,7 +328,7 @@ func (w *repoWorld) project(ht *hashTable) (*absState, map[string]*artFacts) {
 					a.Expired = c.NotAfter.Before(time.Now())
 					for _, x := range c.Exts {
 						if x.OID == "1.3.6.1.4.1.99999.2" && len(x.Value) == 1 {
-							a.Certp = int(x.Value[0])
+							a.Certp = profBase + int(x.Value[0])
 						}
 					}
 					if pk, err := c.PubKey(); err == nil {
@@ -673,17 +682,20 @@ func (x *repoExec) learnHashes(w *repoWorld, planned []string) {
 }
 
 func profOf(w *repoWorld, e string) int {
-	if usesProfile(e) {
-		return w.prof
+	if w.uses[e] {
+		return profBase + w.prof
 	}
 	return 0
 }
 
 // perform one action on a copy of the world; returns the resulting world and the logged line
 func (x *repoExec) perform(w *repoWorld, pre *absState, preFacts map[string]*artFacts, a repoAct, depth int) (*repoWorld, *repoLine) {
-	nw := &repoWorld{l: w.l, fs: w.fs.Clone(), cfgc: map[string]int{}, par: map[string]string{}, gone: map[string]bool{}, prof: w.prof}
+	nw := &repoWorld{l: w.l, fs: w.fs.Clone(), cfgc: map[string]int{}, par: map[string]string{}, gone: map[string]bool{}, uses: map[string]bool{}, prof: w.prof}
 	for k, v := range w.gone {
 		nw.gone[k] = v
+	}
+	for k, v := range w.uses {
+		nw.uses[k] = v
 	}
 	for k, v := range w.cfgc {
 		nw.cfgc[k] = v
@@ -702,18 +714,25 @@ func (x *repoExec) perform(w *repoWorld, pre *absState, preFacts map[string]*art
 	switch a.Name {
 	case "Edit":
 		nw.cfgc[a.E] = a.C
-		nw.fs.Put(x.l.Path[a.E], x.l.configText(a.E, a.C, nw.par[a.E]))
+		nw.fs.Put(x.l.Path[a.E], x.l.configText(a.E, a.C, nw.par[a.E], nw.uses[a.E]))
 	case "SetIssuer":
 		nw.par[a.E] = a.P
-		nw.fs.Put(x.l.Path[a.E], x.l.configText(a.E, nw.cfgc[a.E], a.P))
+		nw.fs.Put(x.l.Path[a.E], x.l.configText(a.E, nw.cfgc[a.E], a.P, nw.uses[a.E]))
+	case "SetProfile":
+		if nw.uses[a.E] {
+			delete(nw.uses, a.E)
+		} else {
+			nw.uses[a.E] = true
+		}
+		nw.fs.Put(x.l.Path[a.E], x.l.configText(a.E, nw.cfgc[a.E], nw.par[a.E], nw.uses[a.E]))
 	case "RemoveConfig":
 		nw.gone[a.E] = true
 		nw.fs.Remove(x.l.Path[a.E])
 	case "AddConfig":
 		delete(nw.gone, a.E)
-		nw.fs.Put(x.l.Path[a.E], x.l.configText(a.E, nw.cfgc[a.E], nw.par[a.E]))
+		nw.fs.Put(x.l.Path[a.E], x.l.configText(a.E, nw.cfgc[a.E], nw.par[a.E], nw.uses[a.E]))
 	case "Touch":
-		nw.fs.Put(x.l.Path[a.E], x.l.configText(a.E, nw.cfgc[a.E], nw.par[a.E]))
+		nw.fs.Put(x.l.Path[a.E], x.l.configText(a.E, nw.cfgc[a.E], nw.par[a.E], nw.uses[a.E]))
 	case "DeleteArt":
 		nw.fs.Remove(art)
 	case "Truncate":
@@ -733,7 +752,7 @@ func (x *repoExec) perform(w *repoWorld, pre *absState, preFacts map[string]*art
 		nw.fs.Put(art, append(append([]byte{}, nw.fs.Files[art].Data...), tails[x.rng.Intn(len(tails))]...))
 	case "Replace":
 		prof := -1 // the user-supplied certificate is made for the current effective configuration (profile part included)
-		if usesProfile(a.E) {
+		if nw.uses[a.E] {
 			prof = nw.prof
 		}
 		nw.fs.Put(art, foreignCertAndKey(fmt.Sprintf("%s v%d", a.E, nw.cfgc[a.E]), prof))
@@ -961,6 +980,9 @@ func (x *repoExec) envActions(s *absState, enabled map[string]bool, contents int
 		if enabled["Replace"] {
 			out = append(out, repoAct{Name: "Replace", E: e})
 		}
+		if enabled["SetProfile"] {
+			out = append(out, repoAct{Name: "SetProfile", E: e})
+		}
 		isLeaf := true
 		for _, y := range x.l.Ents { // present or not: a deleted configuration may come back
 			isLeaf = isLeaf && s.Par[y] != e
@@ -1058,12 +1080,15 @@ func cmdRepo(args []string) int {
 		}
 	}
 
-	world := &repoWorld{l: l, fs: simfs.New(), cfgc: map[string]int{}, par: map[string]string{}}
+	world := &repoWorld{l: l, fs: simfs.New(), cfgc: map[string]int{}, par: map[string]string{}, gone: map[string]bool{}, uses: map[string]bool{}}
 	world.fs.Put(repoProfilePath, repoProfileText(0))
 	for _, e := range l.Ents {
 		world.cfgc[e] = 0
 		world.par[e] = l.Parent[e]
-		world.fs.Put(l.Path[e], l.configText(e, 0, l.Parent[e]))
+		if usesProfile(e) {
+			world.uses[e] = true
+		}
+		world.fs.Put(l.Path[e], l.configText(e, 0, l.Parent[e], world.uses[e]))
 	}
 	// decoys that must never be touched
 	world.fs.Put("README.txt", []byte("not a config\n"))
@@ -1102,9 +1127,12 @@ func cmdRepo(args []string) int {
 
 	if *randomWalks > 0 {
 		for i := 0; i < *randomWalks; i++ {
-			wd := &repoWorld{l: l, fs: world.fs.Clone(), cfgc: map[string]int{"r": 0, "s": 0, "l": 0}, par: map[string]string{}, prof: 0}
+			wd := &repoWorld{l: l, fs: world.fs.Clone(), cfgc: map[string]int{"r": 0, "s": 0, "l": 0}, par: map[string]string{}, gone: map[string]bool{}, uses: map[string]bool{}, prof: 0}
 			for _, e := range l.Ents {
 				wd.par[e] = l.Parent[e]
+				if world.uses[e] {
+					wd.uses[e] = true
+				}
 			}
 			st, facts := wd.project(x.ht)
 			st.Last = "none"
